@@ -10,7 +10,12 @@
        BEnter, BBypass, BPre, BSeqs, BPost, BDeferred, BEnd) and the recovery / final-state / action models
        claim; [phase_of] maps the state methods of sm.States to those phases and [declared_phase_edges] is
        the automaton's phase graph.
-   Proofs: SmGraphProofs.v.  Obligations about the generated graph: props/SmGraphProps.v. *)
+   Proofs: SmGraphProofs.v.  Obligations about the generated graph: props/SmGraphProps.v.
+
+   When the code's state chain changes ON PURPOSE: update [declared_edges] (and the models that cite it), then
+   refresh the committed snapshot with
+     .work/bin/smgraph -repo /repo -v coq/smgraph/SmGraphGen.v -json coq/smgraph/SmGraphGen.json
+   (lib/props/smgraph.py never writes into coq/; it regenerates into the run's work directory). *)
 From Coq Require Import List String Bool Arith.
 Import ListNotations.
 Local Open Scope string_scope.
@@ -322,6 +327,12 @@ Definition declared_entries : list entry_core :=
 
 (* ------------------------------------------------------------------ the engine automaton's phases *)
 
+(* The phases are those of coq/engine (PlanSM.pphase, Block.bphase), in ONE type because the code has one
+   machine: PBlocks stands for "PlanSM.PBlocks with the current block in Block.BEnter, or no block left"
+   (the Go state ExecuteBlock).  Moves the code has and the dev=none automaton does not need:
+   (PBlocks, PDeferred) - ExecuteBlock -> PlanDeferredChecks when the entrance delay is cancelled, which
+   requires a cancelled context (Stop is not exposed, DESIGN section 11); the automaton's
+   "failed block => PDeferred" is (BEnd, PDeferred) here.  PRecover is the entry of Recover/Resume.v. *)
 Inductive phase :=
 | PStart | PBypass | PPre | PBlocks | PPost | PDeferred | PEnd      (* PlanSM.v *)
 | BBypass | BPre | BSeqs | BPost | BDeferred | BEnd                 (* Block.v; BEnter = PBlocks here *)
